@@ -11,9 +11,9 @@ class Check(SiteCheck):
         'text': ('Theorems over Model/Site.v and the listing skeleton REGENERATED from /repo on every run (Gen/Listings.v): isVisible o '
                  '<-> no ancestor-or-self is HIDDEN, fuel never runs out on a well-founded tree (C12_visibility_inherits); an object '
                  'that is not visible has no page, no member anchor/detail block and no entry in any listing fed by a filtered loop '
-                 '(C12_hidden_no_page_anchor_row; per-producer invariant proved once for every table with table_ok, instantiated by '
-                 'listings_checked = vm_compute on the regenerated table); the two root listings are safe when no root is hidden '
-                 '(C12_hidden_no_row_roots_partial) and refuted otherwise (C12_hidden_root_row_refuted); no href targets an object that '
+                 '(C12_hidden_no_page_anchor_row, every producer; per-producer invariant proved once for every table with table_ok, '
+                 'instantiated by listings_checked = vm_compute on the regenerated table; C12_hidden_root_row_old_refuted for the '
+                 'root listings before 989b1ee); no href targets an object that '
                  'is not visible now that taglink drops it (C12_no_link_targets_hidden; C12_taglink_old_refuted for the code before '
                  'fd84d91); every member-table row, member detail block, sidebar item, module-index item and search document of a '
                  'PRIVATE object carries the private marker (C12_private_marked, from markers_checked). Tie: set-for-set '
